@@ -712,6 +712,15 @@ def check_fit_raise(ctx, replay, out):
         ctx.mismatch("fitRaise:stableOk-but-unplaced-slice-not-wf-over-the-run", replay, True, o)
     if st not in ("ok", "hang"):
         ctx.count("fit raise: real replace_step raised, openPrefixOk=%s wfWhile=%s" % (prefix, o.get("wfWhile")))
+        # fit_raises_only_at_sites (Props/C11.lean): a run that raises reaches a state in which the unplaced slice is not
+        # well-formed or a site condition fails
+        bad = o.get("bad")
+        if o.get("hyp"):
+            if not isinstance(bad, list):
+                ctx.mismatch("fitRaise:raised-without-a-failing-site-condition", replay, "a state with wf/startSite/endSite false", o)
+            else:
+                ctx.count("fit raise: real replace_step raised; first failing condition: %s" % "+".join(
+                    n_ for n_, v in zip(("unplaced slice not wf", "start site", "end site"), bad) if not v))
     # openPrefixOk_of_cut (Props/C11.lean): the generated slices are cut from valid documents; when their non-leaf nodes have
     # suffix-closed content (`Schema.homogKids`, evaluated by the driver) the static guard holds
     ctx.count("fit raise: slice nodes have suffix-closed content: %s (schema: %s)" % (o.get("homog"), o.get("homogSchema")))
